@@ -600,6 +600,10 @@ Q(id='C15.GCGchecksum', props=['C15'], cls='P', harness='c15_gcg.c', entry='h_c1
   funcs=['GCGchecksum'], trusted=[TRUST_MSG, 'toupper: CBMC C-locale model (-D__NO_CTYPE)'],
   assumptions=[A_NOFAIL, 'row length 0..100000 (KV_MAXROW; object size, not the loop, bounds it)',
                'data invariant: row bytes of a finalised alignment are ASCII (>= 0), instantiated at the read site by an injected ghost assume'])
+Q(id='C15.sort_out_lines', props=['C15', 'C06'], cls='P', harness='c15_msf_fit.c', entry='h_c15_sort_out_lines', defs=['-DKV_ENTRY_SORTLINES', '-DKV_CAP=2', '-DKV_SEQCAP=2', '-DKV_LCAP=24', '-DKV_OUTMAX=1400'],
+  mode='wrap', unwind=4, timeout=300, funcs=['sort_out_lines'], loops_files=['msa_alloc.shrink.loops', 'msa_io.shrink.loops', 'msa_io.lines.shrink.loops'], shrink=True,
+  srcs=WRITER_SRCS, native_srcs=['lib/src/tldevel.c', 'lib/src/esl_stopwatch.c'] + WRITER_SRCS,
+  trusted=[TRUST_MSG], assumptions=[A_WRAP, 'both keys of both lines range over the full int domain (loop-free harness: complete, not bounded)'])
 PROPS['C15'] = dict(
     level='other',
     level_text=('the three writers are run on symbolic finalised alignments with stdio captured; the captured bytes are checked against the format rules of the property (60-column wrapping, header lines, blocks with every sequence once, in order) '
